@@ -15,11 +15,17 @@ SPEC = dict(
          'random k-way splits up to 40 pieces) is compared byte-wise with the one-shot Sha256::hash digest of the same message. '
          'Aliased calls: result == MAC/digest of copies of the inputs taken before the call (same call on the copies with a separate result buffer), every byte of the shared block '
          'outside the result and every non-shared input unchanged; the aliased results are also recomputed offline. '
+         'mt / mt-tsan: case = 2..8 threads (index mod 7) x 30..120 rounds over 4..10 seeded work items per thread (hash(), a reused hasher of its own fed in 1..3 pieces with reset() in '
+         'between, a fresh hasher per call, hmac(), the RFC 2104 construction from two hashers of its own), all threads released by one barrier; every result is compared with the value of '
+         'the same input computed (and recorded for the offline comparison) by the main thread before the threads existed; one serial control round of every work list first; the '
+         'ThreadSanitizer build of the same mode reports unsynchronised accesses to state shared between hashers. '
          'Offline: every one-shot digest and every MAC is recomputed with Python hashlib/hmac (vlib/sha_ref.py), which is itself anchored on FIPS 180-4 / RFC 4231 vectors.',
     assumptions=['ASan/UBSan red zones: messages, keys, pieces, the 32-byte digest destination and the hasher object live in exactly-sized heap blocks',
                  'Python hashlib.sha256 and hmac are the standard (self-checked against 12 published vectors at every run)',
                  'aliasing result and input buffers is within the contract of hmac/hash/finalize: inputs are const pointers read as of the time of the call, nothing in the API forbids '
                  'an in-place call (k = HMAC(k, info)) and the pinned implementation consumes every input before it writes the result',
+                 'hasher objects that are not shared between threads are independent (a Sha256 is plain data, hash()/hmac() work on a local object, the pinned implementation has no '
+                 'mutable static state): a result computed while other threads hash must equal the result computed single-threaded',
                  'equality with the standard for chunked hashing is established transitively: chunked digest == one-shot digest (online) and one-shot digest == hashlib (offline)'],
     technique='reference-implementation comparison (online self-consistency + offline hashlib/hmac over a recorded log), exhaustive small sub-spaces',
     exhaustive={Q: True, T: True},
@@ -32,6 +38,8 @@ SPEC = dict(
         job('alias', 'h_sha', 'alias', cases={Q: 7236, T: 72360}, procs=16, rec=True),
         job('big', 'h_sha', 'big', cases={Q: 5, T: 7}, procs={Q: 5, T: 7}, rec=True, timeout=1200),
         job('vectors', 'h_sha', 'vectors', cases=-1, procs=1, rec=True),
+        job('mt', 'h_sha', 'mt', cases={Q: 420, T: 8400}, procs=4, weight=4, rec=True, timeout=1200),
+        job('mt-tsan', 'h_sha', 'mt-tsan', variant='tsan', cases={Q: 140, T: 2800}, procs=4, weight=4, rec=True, timeout=1200),
     ],
     floors={Q: dict(digests=500000, updates=1500000, chunkings2=300000, chunkings3=500000, chunkings_k=10000, single_byte_runs=900, hmacs=10000,
                     hasher_reuse_after_finalize=100000, hasher_reset_mid_message=100000, offline_digests_compared=4900, offline_macs_compared=10000,
